@@ -139,6 +139,13 @@ def run_doc_case(case, env, focus, stats, syntax_compilers=()):
         if focus == "build":
             for v in scan_facilities(tr["header"], doc):
                 viol.append(v)
+        for stage, text in b["errors"].items():
+            # only the emitted header is on trial: an error located in the stand-in uic's ui_*.h or in the driver is mine
+            # (an error inside the stubs, e.g. the static_assert of connect(), is provoked by the header)
+            import re as _re
+            locs = _re.findall(r"(\S+?):\d+:\d+: error:", text)
+            if locs and all(("/ui_" in l or l.endswith("driver.cpp")) for l in locs):
+                raise RuntimeError("harness: compile error outside the generated header (%s):\n%s" % (stage, text[:1500]))
         if b["errors"]:
             _bump(probes, "documents_whose_header_failed_to_compile")
             if focus == "build":
